@@ -657,8 +657,8 @@ func runFrame(fr *frame) {
 			// interp-internal panic(string) = engine bug / unsupported
 			panic(engineError{"interpreter: " + s + " in " + fr.fn.String()})
 		}
-		if fr.i.panicOrigin == nil || fr.i.panicOrigin.p != p {
-			fr.i.panicOrigin = &panicInfo{p: p, stack: fr.stack()}
+		if fr.i.panicOrigin == nil {
+			fr.i.panicOrigin = &panicInfo{stack: fr.stack()}
 		}
 		fr.panicking = true
 		fr.panic = p
@@ -727,6 +727,7 @@ func doRecover(caller *frame) value {
 		caller.caller.panicking = false
 		p := caller.caller.panic
 		caller.caller.panic = nil
+		caller.i.panicOrigin = nil
 
 		switch p := p.(type) {
 		case targetPanic:
